@@ -105,9 +105,9 @@ Qed.
 Lemma ambig1_ok f m c : col_ok c -> col_ok (fst (ambig1 f m c)).
 Proof.
   unfold ambig1. intros Hc.
-  destruct (q c) eqn:Eq; auto. destruct (cap c); auto. destruct (f_joins f); auto.
+  destruct (q c) eqn:Eq; auto. destruct (f_joins f); auto.
   destruct (nth_error _ _); simpl; [exact I|].
-  destruct (match pos_of m (cn c) with 0 => _ | S p' => _ end); simpl; auto. exact I.
+  destruct (match pos_of m (col_out c) with 0 => _ | S p' => _ end); simpl; auto. exact I.
 Qed.
 
 Lemma ambig_ok f cs : forall m, Forall col_ok cs -> Forall col_ok (ambig f m cs).
